@@ -174,6 +174,12 @@ func genCnfForMus(r *rand.Rand, tier string) *CnfCase {
 			cls[k] = c
 		}
 	}
+	if r.Intn(12) == 0 { // the empty clause (a line "0"), once or twice: the only MUS is then one empty clause
+		cls = append(cls, []int{})
+		if r.Intn(3) == 0 {
+			cls = append(cls, []int{})
+		}
+	}
 	if r.Intn(6) == 0 && len(cls) > 0 { // repeated clause
 		cls = append(cls, append([]int{}, cls[r.Intn(len(cls))]...))
 	}
